@@ -15,6 +15,11 @@ from vf.gen import json_equal
 from vf.runner import h
 from vf.tape import RecordingFile
 
+import sys as _sys
+
+# eliot without the orjson package (as on PyPy) uses the standard library's json; the runner starts such cases in a fresh interpreter
+NO_ORJSON = "orjson" in _sys.modules and _sys.modules["orjson"] is None
+
 ID = "C10"
 LEVEL = "exploration"
 RULE = ("messages over the JSON-native domain (boundary integers/floats, control/astral/escape-requiring text, nesting up to 12 quick / "
@@ -131,6 +136,8 @@ DEFAULTS = {"default": json_default, "a": default_a, "b": default_b, "c": defaul
 def plan(tier, seed):
     n = 100000 if tier == "quick" else 1000000
     specs = [{"seed": seed, "lo": i, "hi": min(n, i + BATCH), "tier": tier} for i in range(0, n, BATCH)]
+    k = 8 if tier == "quick" else 80
+    specs += [{"seed": seed, "lo": 10**7 + i * BATCH, "hi": 10**7 + (i + 1) * BATCH, "tier": tier, "interpreter": "no_orjson"} for i in range(k)]
     nf = 2000 if tier == "quick" else 20000
     specs += [{"part": "faultyfile", "seed": seed, "lo": i, "hi": min(nf, i + 100), "tier": tier} for i in range(0, nf, 100)]
     return specs
@@ -139,6 +146,8 @@ def plan(tier, seed):
 def gen_rich(rng, which):
     """Returns (value, expected decoded image or callable checker)."""
     r = rng.randrange(17)
+    if NO_ORJSON and r in (7, 11, 12, 13):
+        r = 2  # (non-finite floats, dataclasses, Enum members and UUIDs are encoded by orjson itself, not by eliot's json_default)
     if which == "d" and r in (9, 10):
         o = rng.choice([Opaque, HalfBuilt])()
         return o, {"unsupported": type(o).__name__}
@@ -504,6 +513,10 @@ def faulty_file_case(seed, i, res):
 
 def run_case(spec):
     res = {"evals": 0, "nontrivial": [], "counters": {}, "violations": [], "sample": None}
+    if spec.get("interpreter") == "no_orjson":
+        if not NO_ORJSON:
+            return {"inconclusive": "the no-orjson case was not started in an interpreter without orjson"}
+        res["counters"]["messages_encoded_without_orjson"] = spec["hi"] - spec["lo"]
     if spec.get("part") == "faultyfile":
         for i in range(spec["lo"], spec["hi"]):
             faulty_file_case(spec["seed"], i, res)
